@@ -24,6 +24,7 @@ META = {
                 '(the unitary/Hermitian structure of expm is not modelled); not solver-checked', 'truncation inside tdvp2site (threshold > 0)', 'rounding'],
     'assumptions': ['expm_multiply(A, v) = expm(A) v with expm a function of its argument'],
     'tv_per_scenario': {'quick': 1, 'thorough': 1},
+    'tv_all': ['exactness'],
 }
 
 
@@ -536,3 +537,55 @@ def _expm_mult(ctx, A, v):
     from symtt.array import asobj, dot
     E = lapack.policy().expm(asobj(A))
     return dot(E, asobj(v))
+
+
+# ------------------------------- exactness on representable dynamics, conservation (concrete only)
+@scenario('C11', 'exactness', lambda tier: [{'dims': dims, 'method': m} for dims in ([2, 2, 2], [2, 3, 2]) for m in ('tdvp1site', 'tdvp2site', 'krylov')])
+def exactness(ctx, dims, method):
+    """NOT a solver verdict (theorems about the reference scheme): on a random complex Hermitian operator the validation run checks the property's
+    own sentences numerically -- at maximal ranks the one-site / two-site integrators reproduce exp(-i t H) x0, the Krylov propagator with a full
+    Krylov space is exact, the one-site scheme conserves norm and energy at low rank, operator and initial state unchanged, list structure"""
+    TT, ode = ctx.R.TT, ctx.R.ode
+    if ctx.mode == 'tv':
+        raise SkipTV()
+    if ctx.sym:
+        ctx.held('exactness at maximal ranks / conservation are checked numerically by the validation run of this scenario (sampling, stated in the evidence)')
+        return
+    import scipy.linalg as sl
+    d = len(dims)
+    rng = np.random.RandomState(5 + sum(dims))
+    rk = [1] + [2] * (d - 1) + [1]
+    C = TT([rng.randn(rk[i], dims[i], dims[i], rk[i + 1]) + 1j * rng.randn(rk[i], dims[i], dims[i], rk[i + 1]) for i in range(d)])
+    H = 0.5 * (C + C.transpose(conjugate=True))
+    Hd = np.asarray(H.matricize())
+    rmax = [1] + [min(int(np.prod(dims[:i])), int(np.prod(dims[i:]))) for i in range(1, d)] + [1]
+
+    def state(r):
+        t = TT([rng.randn(r[i], dims[i], 1, r[i + 1]) + 1j * rng.randn(r[i], dims[i], 1, r[i + 1]) for i in range(d)])
+        t = t.ortho_right()
+        return (1 / t.norm()) * t
+    h, steps = 0.05, 3
+    x0 = state(rmax)
+    x0d = np.asarray(x0.matricize()).reshape(-1)
+    Hd0 = Hd.copy()
+    if method == 'krylov':
+        N = Hd.shape[0]
+        out = ode.krylov(H, x0, N, h, threshold=1e-14, max_rank=64, normalize=0)
+        ref = sl.expm(-1j * h * Hd) @ x0d
+        ctx.eq('krylov with a Krylov space spanning the whole state space == exp(-i h H) x0', np.asarray(out.matricize()).reshape(-1), ref, tol=1e-8)
+    else:
+        fn = getattr(ode, method)
+        sol = fn(H, x0, h, steps) if method == 'tdvp1site' else fn(H, x0, h, steps, threshold=1e-14, max_rank=64)
+        ctx.check('%s: initial state (by identity) followed by one state per step' % method, len(sol) == steps + 1 and sol[0] is x0)
+        got = np.array([np.asarray(t.matricize()).reshape(-1) for t in sol])
+        ref = np.array([sl.expm(-1j * h * k * Hd) @ x0d for k in range(steps + 1)])
+        ctx.eq('%s at maximal ranks == exp(-i t H) x0 at every stored time' % method, got, ref, tol=1e-8)
+        if method == 'tdvp1site':
+            xl = state([1] + [1] * (d - 1) + [1])
+            sol2 = ode.tdvp1site(H, xl, h, steps)
+            nr = [float(np.linalg.norm(np.asarray(t.matricize()))) for t in sol2]
+            en = [float(np.real(np.vdot(np.asarray(t.matricize()).reshape(-1), Hd @ np.asarray(t.matricize()).reshape(-1)))) for t in sol2]
+            ctx.eq('tdvp1site conserves the norm at low rank', np.array(nr), np.full(len(nr), nr[0]), tol=1e-9)
+            ctx.eq('tdvp1site conserves the energy at low rank', np.array(en), np.full(len(en), en[0]), tol=1e-9)
+    ctx.eq('%s: operator unchanged' % method, np.asarray(H.matricize()), Hd0, tol=0.0)
+    ctx.eq('%s: initial state unchanged' % method, np.asarray(x0.matricize()).reshape(-1), x0d, tol=0.0)
